@@ -1,8 +1,9 @@
 /- line-protocol engine `conv` (C20): the generated standard-library definitions (`std <fn> <ints…> | <fixed-point
 floats…>`) and the hand-written conversion models. -/
 import Generated.StdInt
+import XrayModel.Conv
 namespace XrayDriver
-open XrayGen
+open XrayGen XrayModel.Conv
 
 /-- scale of the driver's exact fixed point: a float argument `t` is sent as the integer `t * 2^20` -/
 def convScale : Int := 1048576
@@ -11,6 +12,48 @@ def splitBar (xs : List String) : List String × List String :=
   match xs.span (fun s => s != "|") with
   | (a, _ :: b) => (a, b)
   | (a, []) => (a, [])
+
+/-- strings travel as comma-separated code points, `-` is the empty string -/
+def parseCps (s : String) : Option (List Nat) :=
+  if s == "-" then some [] else (s.splitOn ",").mapM String.toNat?
+
+def showCps (l : List Nat) : String :=
+  if l.isEmpty then "-" else String.intercalate "," (l.map toString)
+
+/-- JSON documents travel in prefix form: `n:<cps>` `b:0|1` `s:<cps>` `z` `a:<k> item…` `o:<k> (key item)…` -/
+def parseJ : Nat → List String → Option (J × List String)
+  | 0, _ => none
+  | fuel + 1, tok :: rest =>
+    if tok == "z" then some (.null, rest)
+    else match tok.splitOn ":" with
+      | ["n", v] => (parseCps v).map fun t => (J.num t, rest)
+      | ["b", v] => some (J.bool (v == "1"), rest)
+      | ["s", v] => (parseCps v).map fun t => (J.str t, rest)
+      | ["a", k] =>
+        match k.toNat? with
+        | none => none
+        | some k =>
+          let rec items (fuel : Nat) : Nat → List String → List J → Option (List J × List String)
+            | 0, r, acc => some (acc.reverse, r)
+            | n + 1, r, acc =>
+              match parseJ fuel r with
+              | some (j, r2) => items fuel n r2 (j :: acc)
+              | none => none
+          (items fuel k rest []).map fun (xs, r) => (J.arr xs, r)
+      | ["o", k] =>
+        match k.toNat? with
+        | none => none
+        | some k =>
+          let rec fields (fuel : Nat) : Nat → List String → List (List Nat × J) → Option (List (List Nat × J) × List String)
+            | 0, r, acc => some (acc.reverse, r)
+            | _ + 1, [], _ => none
+            | n + 1, key :: r, acc =>
+              match parseCps key, parseJ fuel r with
+              | some kk, some (j, r2) => fields fuel n r2 ((kk, j) :: acc)
+              | _, _ => none
+          (fields fuel k rest []).map fun (xs, r) => (J.obj xs, r)
+      | _ => none
+  | _, [] => none
 
 /-- `rows lo n`: for the `n` Julian days from `lo`: `year month day julian_day(date) weekday(date)`, `;`-separated -/
 def dateRows (lo : Int) : Nat → List String
@@ -33,6 +76,26 @@ def convEngine (f : String) (args : List String) : String :=
     match lo.toInt?, n.toNat? with
     | some lo, some n => String.intercalate ";" (dateRows lo n)
     | _, _ => "bad-op"
+  | "chr", [i] =>
+    match i.toInt? with
+    | some i => (match chr i with | .ok s => "ok " ++ showCps s | .error _ => "err")
+    | none => "bad-op"
+  | "code_point", [s] =>
+    match parseCps s with
+    | some s => (match codePoint s with | .ok v => s!"ok {v}" | .error _ => "err")
+    | none => "bad-op"
+  | "escape", [s] =>
+    match parseCps s with
+    | some s => showCps (escapeStr s)
+    | none => "bad-op"
+  | "unescape", [s] =>
+    match parseCps s with
+    | some s => (match unescapeStr s with | some r => "ok " ++ showCps r | none => "none")
+    | none => "bad-op"
+  | "ser", toks =>
+    match parseJ (toks.length + 1) toks with
+    | some (j, []) => showCps (ser j)
+    | _ => "bad-op"
   | "names", [] => String.intercalate " " stdNames
   | _, _ => "bad-op"
 
